@@ -3,6 +3,7 @@
 mod common;
 mod perm;
 mod route;
+mod srv;
 
 fn main() {
     let mode = std::env::args().nth(1).unwrap_or_default();
@@ -15,6 +16,7 @@ fn main() {
         "route" => rt.block_on(route::main()),
         "hash" => route::hash_main(),
         "perm" => perm::main(),
+        "srv" => rt.block_on(srv::main()),
         _ => {
             eprintln!("usage: vh <mode>");
             std::process::exit(2);
